@@ -27,5 +27,12 @@ def run(ctx: Ctx) -> None:
     pause_rule(ctx, "R-C09-PAUSE")
     pause_lock_protocol(ctx, "R-C09-PAUSE")
     rabbit_pause_flag(ctx, "R-C09-PAUSE")
+    from .C11 import sync
+
+    with ctx.as_rule("R-C09-OWN"):
+        sync(ctx, "R-C09-OWN")  # every registered actor's topic is among the topics its queue is consumed for: no enqueued job is left unconsumed
+    from .brokers import redis_scan_exhaustive
+
+    redis_scan_exhaustive(ctx, "R-C09-PAUSE")  # no-stall: deliverable messages behind foreign ones are found
     actor_contained(ctx, "R-C09-CONTAIN")
     sync_actor_contained(ctx, "R-C09-CONTAIN")
